@@ -249,18 +249,25 @@ func c01dispatch(c *core.Ctx) {
 	c.Check(validateInLoop && !filtered, R, "ValidateLiteralValue:loop", pos, "every collected constraint kind reaches LiteralValidator.Validate (no continue/break/return in the loop)", "the validation loop skips constraints or no longer calls Validate: a rule written next to a value is not applied")
 	// (2) keys are appended for every element of the constraint map (EachSafe callback appends unconditionally)
 	appendAll := false
-	ast.Inspect(d.Decl.Body, func(n ast.Node) bool {
+	inspectDeep(c, d, 1, func(hd *core.DeclSite, n ast.Node) bool {
 		call, ok := n.(*ast.CallExpr)
-		if !ok || !strings.HasSuffix(core.FullName(core.Callee(d.Pkg, call)), "Constraints).EachSafe") || len(call.Args) != 1 {
+		if !ok || !strings.HasSuffix(core.FullName(core.Callee(hd.Pkg, call)), "Constraints).EachSafe") || len(call.Args) != 1 {
 			return true
 		}
 		fl, ok := call.Args[0].(*ast.FuncLit)
 		if !ok || len(fl.Body.List) != 1 {
 			return true
 		}
-		if as, ok := fl.Body.List[0].(*ast.AssignStmt); ok && len(as.Lhs) == 1 {
-			if id, ok := as.Lhs[0].(*ast.Ident); ok && d.Pkg.TypesInfo.ObjectOf(id) == keysObj {
-				appendAll = true
+		// the callback is one unconditional `keys = append(keys, ...)`
+		if as, ok := fl.Body.List[0].(*ast.AssignStmt); ok && len(as.Lhs) == 1 && len(as.Rhs) == 1 {
+			if ap, ok := as.Rhs[0].(*ast.CallExpr); ok && core.ExprStr(ap.Fun) == "append" && len(ap.Args) >= 2 && core.ExprStr(ap.Args[0]) == core.ExprStr(as.Lhs[0]) {
+				if hd.Decl == d.Decl {
+					if id, ok := as.Lhs[0].(*ast.Ident); ok && d.Pkg.TypesInfo.ObjectOf(id) == keysObj {
+						appendAll = true
+					}
+				} else {
+					appendAll = true // built in a helper whose result is the list
+				}
 			}
 		}
 		return true
@@ -345,81 +352,87 @@ func c01dispatch(c *core.Ctx) {
 // c01or: `or` fails iff all alternatives fail.
 func c01or(c *core.Ctx) {
 	const R = "C01.or"
-	c.Rule(R, "checkSchema.checkLiteralNode raises the collected error iff the number of failed alternatives equals the number of checkers: the error counter is incremented exactly once per failing checker and compared with len(checkerList) by ==")
+	c.Rule(R, "checkSchema.checkLiteralNode, evaluated with 0, 1, 2 and 3 alternative checkers and every pattern of failing ones (15 cells): the value is refused (panic) exactly when every alternative fails; with one alternative the error raised is that alternative's own")
 	c.Floor(R, 1)
 	d := c.P.FindDecl("(notations/jschema/checker.checkSchema).checkLiteralNode")
 	if d == nil {
 		c.Unresolved(R, "(notations/jschema/checker.checkSchema).checkLiteralNode")
 		return
 	}
-	// find: counter variable incremented inside a range over the checker list under `err != nil`; later `if counter == len(list)` -> panic
-	var listExpr string
-	var counter types.Object
-	incUnderErr := false
+	// the variable holding the list of checkers
+	listVar := ""
 	ast.Inspect(d.Decl.Body, func(n ast.Node) bool {
-		rs, ok := n.(*ast.RangeStmt)
-		if !ok {
-			return true
+		if as, ok := n.(*ast.AssignStmt); ok && len(as.Lhs) == 1 && len(as.Rhs) == 1 {
+			if call, ok := as.Rhs[0].(*ast.CallExpr); ok && strings.HasSuffix(core.ExprStr(call.Fun), ".checkerList") {
+				listVar = core.ExprStr(as.Lhs[0])
+			}
 		}
-		listExpr = core.ExprStr(rs.X)
-		ast.Inspect(rs.Body, func(m ast.Node) bool {
-			ifs, ok := m.(*ast.IfStmt)
-			if !ok {
-				return true
-			}
-			cond := core.ExprStr(ifs.Cond)
-			if strings.Contains(cond, "!= nil") {
-				for _, s2 := range ifs.Body.List {
-					if inc, ok := s2.(*ast.IncDecStmt); ok && inc.Tok == token.INC {
-						if id, ok := inc.X.(*ast.Ident); ok {
-							counter = d.Pkg.TypesInfo.ObjectOf(id)
-							incUnderErr = true
-						}
-					}
-				}
-			}
-			return true
-		})
-		return false
+		return true
 	})
-	cmpOK := false
-	if counter != nil {
-		ast.Inspect(d.Decl.Body, func(n ast.Node) bool {
-			ifs, ok := n.(*ast.IfStmt)
-			if !ok {
-				return true
-			}
-			be, ok := ast.Unparen(ifs.Cond).(*ast.BinaryExpr)
-			if !ok || be.Op != token.EQL {
-				return true
-			}
-			x, y := core.ExprStr(be.X), core.ExprStr(be.Y)
-			isCounter := func(e ast.Expr) bool {
-				id, ok := ast.Unparen(e).(*ast.Ident)
-				return ok && d.Pkg.TypesInfo.ObjectOf(id) == counter
-			}
-			if (isCounter(be.X) && y == "len("+listExpr+")") || (isCounter(be.Y) && x == "len("+listExpr+")") {
-				hasPanic, hasReturn := false, false
-				ast.Inspect(ifs.Body, func(m ast.Node) bool {
-					switch y := m.(type) {
-					case *ast.CallExpr:
-						if id, ok := y.Fun.(*ast.Ident); ok && id.Name == "panic" {
-							hasPanic = true
-						}
-					case *ast.ReturnStmt:
-						hasReturn = true
-					}
-					return true
-				})
-				cmpOK = hasPanic && !hasReturn
-			}
-			return true
-		})
+	if listVar == "" {
+		c.Bad(R, "checkLiteralNode:all-fail", c.P.Pos(d.Decl.Pos()), "the list of alternative checkers", "undecided: no `x := c.checkerList(...)`")
+		return
 	}
-	c.Check(incUnderErr && cmpOK, R, "checkLiteralNode:all-fail", c.P.Pos(d.Decl.Pos()), "an `or` value is rejected iff errorsCount == len(checkerList)", core.F("counter incremented under err != nil: %v; compared with len(list) by == and panics: %v - with another comparison a value matching one alternative is rejected, or a value matching none is accepted", incUnderErr, cmpOK))
+	bad := ""
+	cells := 0
+	for n := 0; n <= 3 && bad == ""; n++ {
+		for mask := 0; mask < 1<<n && bad == ""; mask++ {
+			cells++
+			e := &miniEval{pk: d.Pkg, env: map[string]int64{}}
+			e.rng = func(x ast.Expr) ([]int64, bool) {
+				if core.ExprStr(x) == listVar {
+					out := make([]int64, n)
+					for i := range out {
+						out[i] = int64(i)
+					}
+					return out, true
+				}
+				return nil, false
+			}
+			e.hook = func(x ast.Expr) (int64, bool) {
+				switch y := x.(type) {
+				case *ast.Ident:
+					if y.Name == "nil" {
+						return 0, true
+					}
+				case *ast.CallExpr:
+					if core.ExprStr(y.Fun) == "len" && len(y.Args) == 1 && core.ExprStr(y.Args[0]) == listVar {
+						return int64(n), true
+					}
+					if sel, ok := y.Fun.(*ast.SelectorExpr); ok && sel.Sel.Name == "Check" {
+						// which checker: the range variable, or list[i]
+						idx := int64(-1)
+						switch r := ast.Unparen(sel.X).(type) {
+						case *ast.Ident:
+							idx = e.env[r.Name]
+						case *ast.IndexExpr:
+							if core.ExprStr(r.X) == listVar {
+								idx = e.expr(r.Index)
+							}
+						}
+						if idx >= 0 && idx < int64(n) {
+							return int64(mask>>uint(idx)) & 1, true
+						}
+					}
+					return 0, true // other calls (lexeme getters, error constructors) carry no decision
+				}
+				return 0, false
+			}
+			st, _ := e.run(d.Decl.Body.List)
+			allFail := mask == 1<<n-1
+			switch {
+			case e.unknown != "":
+				bad = "undecided: " + e.unknown
+			case (st == miniPanic) != allFail:
+				bad = core.F("%d alternatives, failing pattern %0*b: refused=%v, expected %v - a value matching one alternative is refused, or a value matching none is accepted", n, n, mask, st == miniPanic, allFail)
+			case n == 1 && allFail && len(e.effects) > 0 && !strings.HasPrefix(e.effects[len(e.effects)-1], "panic(err"):
+				bad = "with a single alternative the error raised is not that alternative's own: " + e.effects[len(e.effects)-1]
+			}
+		}
+	}
+	c.Check(bad == "", R, "checkLiteralNode:all-fail", c.P.Pos(d.Decl.Pos()), core.F("an `or` value is refused iff every alternative fails (%d cells)", cells), bad)
 }
 
-// c01formats: format validators call the documented stdlib parser.
 func c01formats(c *core.Ctx) {
 	const R = "C01.formats"
 	c.Rule(R, "each built-in string format validator calls the resolved standard-library parser with the documented constant and panics iff it fails: date -> time.Parse(\"2006-01-02\"), datetime -> time.Parse(time.RFC3339), email -> net/mail.ParseAddress (plus the module's own checks), uri -> net/url.ParseRequestURI")
